@@ -894,7 +894,9 @@ def random_inputexp(rng):
     stims = []
     for n in range(rng.randint(1, 5)):
         data = {'value': f"v{n}" if rng.random() < 0.6 else rng.choice(['same', 'same', 'v_init'])}
-        d = rng.choice(EV_DURS if dur is not None else EV_DURS[3:])
+        # (no duration anywhere - not in the event, not in the instance, not in the class - is an
+        # error; other instances of the class, the decoys, do have one)
+        d = rng.choice(EV_DURS if dur is not None or rng.random() < 0.25 else EV_DURS[3:])
         if d is not None:
             data['duration'] = d
         stims.append([rng.choice(AIMS), 'put', data])
